@@ -145,7 +145,7 @@ def shard_accessor(spec, R):
         order = orders[it % 6]
         da = da.transpose(*order)
         use_p = bool(it % 2)
-        p = float(rng.uniform(0.05, 0.95)) if use_p else None
+        p = float([0.5, rng.uniform(0.05, 0.95), 0.99, rng.uniform(0.05, 0.95), 0.01][it % 5]) if use_p else None
         mode = it % 3
         if mode == 0:
             s = float(10.0 ** rng.uniform(-3, 5))
